@@ -12,6 +12,7 @@ import (
 	"github.com/ava-labs/avalanchego/database"
 	"github.com/ava-labs/avalanchego/ids"
 
+	"github.com/ava-labs/hypersdk/internal/verifhook"
 	"github.com/ava-labs/hypersdk/keys"
 	"github.com/ava-labs/hypersdk/state"
 )
@@ -86,6 +87,7 @@ func (f *Fetcher) runWorker() {
 				return
 			}
 
+			verifhook.YieldK("fetcher.worker.task", verifhook.H(t.key))
 			v, err := f.im.GetValue(t.ctx, []byte(t.key))
 			if errors.Is(err, database.ErrNotFound) {
 				f.set(t.key, nil, false, 0)
@@ -107,6 +109,7 @@ func (f *Fetcher) runWorker() {
 }
 
 func (f *Fetcher) set(k string, v []byte, exists bool, chunks uint16) {
+	verifhook.AwaitLock("fetcher.set", verifhook.H(k), &f.l)
 	f.l.Lock()
 	defer f.l.Unlock()
 
@@ -124,6 +127,7 @@ func (f *Fetcher) set(k string, v []byte, exists bool, chunks uint16) {
 }
 
 func (f *Fetcher) handleErr(err error) {
+	verifhook.Yield("fetcher.handleErr")
 	f.setErr.Do(func() {
 		f.l.Lock()
 		f.err = err
@@ -141,6 +145,7 @@ func (f *Fetcher) handleErr(err error) {
 //
 // Invariant: Don't call [Fetch] afer calling [Stop] or [Wait]
 func (f *Fetcher) Fetch(ctx context.Context, txID ids.ID, keys []string) error {
+	verifhook.AwaitLock("fetcher.Fetch.lock", verifhook.HB(txID[:]), &f.l)
 	f.l.Lock()
 	if f.err != nil {
 		f.l.Unlock()
@@ -181,6 +186,7 @@ func (f *Fetcher) Fetch(ctx context.Context, txID ids.ID, keys []string) error {
 
 	// Send fetch tasks to the workers or exit
 	for _, t := range tasks {
+		verifhook.YieldK("fetcher.Fetch.send", verifhook.H(t.key))
 		select {
 		case f.tasks <- t:
 		case <-f.stop:
@@ -196,6 +202,7 @@ func (f *Fetcher) Fetch(ctx context.Context, txID ids.ID, keys []string) error {
 // Get can be called concurrently.
 func (f *Fetcher) Get(txID ids.ID) (map[string][]byte, error) {
 	// Block until all keys for the tx are fetched or if the fetcher errored
+	verifhook.AwaitRLock("fetcher.Get.lock1", verifhook.HB(txID[:]), &f.l)
 	f.l.RLock()
 	tx, ok := f.txs[txID]
 	f.l.RUnlock()
@@ -212,7 +219,9 @@ func (f *Fetcher) Get(txID ids.ID) (map[string][]byte, error) {
 		}
 	}
 
+	verifhook.YieldK("fetcher.Get.woken", verifhook.HB(txID[:]))
 	// Fetch keys from cache
+	verifhook.AwaitRLock("fetcher.Get.lock2", verifhook.HB(txID[:]), &f.l)
 	f.l.RLock()
 	defer f.l.RUnlock()
 	var (
@@ -239,10 +248,12 @@ func (f *Fetcher) Stop() {
 // [Wait] can be called multiple times, however, [Fetch] should never be
 // called after [Wait] is called.
 func (f *Fetcher) Wait() error {
+	verifhook.Yield("fetcher.Wait.before")
 	f.waitOnce.Do(func() {
 		close(f.tasks)
 	})
 	f.wg.Wait()
+	verifhook.Yield("fetcher.Wait.after")
 	f.setErr.Do(func() {}) // ensures an error can never be set if work is done
 	return f.err
 }
